@@ -231,7 +231,7 @@ pub fn child(order: &str, n: u32, action: &str, stack: &str) -> i32 {
 }
 
 fn run_child(args: &[String], limit_s: u64) -> Result<String, String> {
-    let exe = std::env::current_exe().unwrap();
+    let exe = crate::run::child_exe();
     let out = Command::new("timeout").arg(limit_s.to_string()).arg(exe).args(args).output().map_err(|e| e.to_string())?;
     let so = String::from_utf8_lossy(&out.stdout).to_string();
     if out.status.success() && (so.contains("C18-OK") || so.contains("SCENARIO-OK")) {
